@@ -30,6 +30,7 @@ def sensitive_names(ws, raw, real_scan=False):
         if m_.ok and m_.imports:
             imported |= set(model.imported_into(p_))
     sens = set()
+    tier_sens = set()
     multi = {n for n, defs in raw["definitions"].items() if len(defs) >= 2}
     for n in multi:
         defs = raw["definitions"][n]
@@ -37,9 +38,52 @@ def sensitive_names(ws, raw, real_scan=False):
         tier_t = sum(1 for d in defs if d["third_party"])
         # real scans register site-packages plugins sequentially (pytest's own package, then the entry points in
         # directory / file order), so several third-party candidates alone do not make a name order-sensitive there
-        if n in imported or tier_p >= 2 or (tier_t >= 2 and not real_scan):
+        if tier_p >= 2 or (tier_t >= 2 and not real_scan):
+            tier_sens.add(n)
+        if n in imported or n in tier_sens:
             sens.add(n)
+    ws._c08_model, ws._c08_tier = model, tier_sens
     return sens, multi
+
+
+def file_level_sensitive(ws, file, name, line=None):
+    """For answers about ONE requesting file (go-to-definition of a usage in it, its per-file view): the recorded finding
+    applies only if the walk up from that file really reaches the import branch (a conftest that re-exports the name
+    without defining it) before any conftest / the file itself defines the name, or falls through to a tier with several
+    candidates."""
+    model = getattr(ws, "_c08_model", None)
+    if model is None:
+        return True
+    if name in ws._c08_tier:
+        m = model.models.get(file)
+        # (tier candidates matter only if nothing nearer provides the name; being generous here costs little)
+        return True
+    m = model.models.get(file)
+    if m is not None and m.ok:
+        own = m.defs_named(name)
+        # a same-named parameter (usage on the def line of a definition of that name) looks past its own definition
+        others = [d_ for d_ in own if line is None or d_["line"] != line]
+        if others and (line is None or len(others) == len(own)):
+            return False
+        if others and len(others) < len(own):
+            return False if len(others) >= 1 else True
+    d = os.path.dirname(file)
+    root = os.path.realpath(ws.root)
+    while True:
+        c = os.path.join(d, "conftest.py")
+        cm = model.models.get(c)
+        if cm is not None and cm.ok and c != file:
+            if cm.defs_named(name):
+                return False
+            if name in set(model.imported_into(c)):
+                return True
+        elif c == file and name in set(model.imported_into(c)):
+            return True
+        if os.path.realpath(d) == root or d in ("/", ""):
+            break
+        d = os.path.dirname(d)
+    # nothing on the path: plugin files' own import chains etc. stay name-level
+    return True
 
 
 def judge(ctx, ws, base, other, sens, multi, how, root):
@@ -49,6 +93,14 @@ def judge(ctx, ws, base, other, sens, multi, how, root):
         if sec in ("cycles",) and names & multi and ctx.known(KF_FIRST):
             continue
         if names & sens and ctx.known(KF_FIRST):
+            if sec in ("goto", "available"):
+                file = key.rsplit(":", 3)[0] if sec == "goto" else key.rsplit("::", 1)[0]
+                line_ = int(key.rsplit(":", 3)[1]) if sec == "goto" else None
+                if not any(file_level_sensitive(ws, file, n_, line_) for n_ in names & sens):
+                    ctx.violation({"kind": "order-dependent-answer", "section": sec, "key": strip_root(key, root), "how": how[0],
+                                   "note": "a nearer definition decides this answer: not covered by the recorded finding"},
+                                  {"a": brief(strip_root(va, root)), "b": brief(strip_root(vb, root)), "how": how}, files=ws.files)
+                    return False
             continue
         # a fixture depending on an order-sensitive name inherits the sensitivity in scope checks
         ctx.violation({"kind": "order-dependent-answer", "section": sec, "key": strip_root(key, root), "how": how[0]},
@@ -139,6 +191,13 @@ def directed_permutations(ctx, vh, K):
             "b/conftest.py": H + "@pytest.fixture(scope=\"module\")\ndef only_a():\n    return 2\n\n@pytest.fixture\ndef auto_a():\n    return 3\n",
             "c/test_mod.py": H + "@pytest.mark.usefixtures(\"only_a\")\ndef test_c(auto_a):\n    x = only_a\n"},
     }
+    layouts["conftest_redefines_a_name_it_also_imports"] = {
+        "pkg/__init__.py": "",
+        "pkg/helpers.py": H + "@pytest.fixture\ndef db() -> \"FromHelpers\":\n    return 1\n\n@pytest.fixture\ndef only_helpers():\n    return 1\n",
+        "pkg/conftest.py": "from .helpers import *\n" + H + "@pytest.fixture(scope=\"module\")\ndef db() -> \"FromConftest\":\n    return 2\n",
+        "other/test_x.py": H + "@pytest.fixture(scope=\"session\")\ndef db() -> \"Unrelated\":\n    return 3\n\ndef test_x(db):\n    pass\n",
+        "pkg/test_use.py": H + "def test_u(db, only_helpers):\n    pass\n\n@pytest.fixture(scope=\"module\")\ndef uses_db(db):\n    return db\n",
+        "pkg/sub/test_deeper.py": "def test_d(db):\n    v = db\n"}
     for lname, files in layouts.items():
         root = ctx.scratch("dir_" + lname)
         ws = gen.WS(root)
